@@ -44,9 +44,10 @@ theorem roots_cover :
 /-- the only type left out of interface dispatch -/
 theorem exclusions : Extracted.dispatchExcluded = ["agessh.EncryptedSSHIdentity"] := by decide
 
-/-- what a root does to a per-operation parameter concerns only Encrypt's destination -/
+/-- what a root does to a per-operation parameter concerns only Encrypt's destination
+    (its first parameter, an io.Writer) -/
 theorem per_operation_only_dst :
-    Extracted.perOperationStores.all (fun s => s.1 == "age.Encrypt" && s.2.1 == "param dst") = true := by decide
+    Extracted.perOperationStores.all (fun s => s.1 == "age.Encrypt" && s.2.1 == "param #0 io.Writer") = true := by decide
 
 /-- the methods that do write a recipient / identity are the two documented setters -/
 theorem config_setters : Extracted.configSetters = [
